@@ -1,5 +1,5 @@
 """C04 — receiver honesty (component level: UserRx + read half; connection level: emitted ack numbers)."""
-from . import common, rxgen, vsock_common, c07
+from . import common, rxgen, vsock_common, c07, concgen
 
 TRUSTED_BASE = common.BASE_TRUSTED + [common.NO_AXIOMS]
 ASSUMPTIONS = [
@@ -95,4 +95,6 @@ _VS = vsock_common.component("c04_vsock_ack_ok", name="vsock_ack")
 _VS["gen"] = _vsock_gen
 
 COMPONENTS = [_VS, {"name": "rx", "keep": 2, "gen": rxgen.gen, "gen_around": gen_around, "nontrivial": nontrivial,
-               "classify": classify, "pred": pred}]
+               "classify": classify, "pred": pred},
+              # the atomicity assumption behind the receive-side theorems, tried on the real object by two threads
+              concgen.component_rx()]
